@@ -1,4 +1,5 @@
 import LyModel.Props.C04
+import LyModel.Props.C04Rb
 #print axioms LyModel.Props.C04.inv_init
 #print axioms LyModel.Props.C04.inv_step_insert
 #print axioms LyModel.Props.C04.inv_step_unlink
@@ -16,3 +17,6 @@ import LyModel.Props.C04
 #print axioms LyModel.Props.C04.anchor_hash_eq_linear
 #print axioms LyModel.Props.C04.insert_stable_sorted
 #print axioms LyModel.Props.C04.insert_perm
+#print axioms LyModel.Props.C04Rb.rb_inorder_insert
+#print axioms LyModel.Props.C04Rb.rb_insert_isRB
+#print axioms LyModel.Props.C04Rb.rb_reachable
